@@ -507,11 +507,9 @@ func (s *shape) values(max int) []*gv {
 		for _, a := range es {
 			out = append(out, &gv{Elems: []*gv{a}})
 		}
-		for i, a := range es {
-			for j, b := range es {
-				if i <= 2 && j <= 2 {
-					out = append(out, &gv{Elems: []*gv{a, b}})
-				}
+		for _, a := range spread(es) {
+			for _, b := range spread(es) {
+				out = append(out, &gv{Elems: []*gv{a, b}})
 			}
 		}
 	case "array":
@@ -528,11 +526,9 @@ func (s *shape) values(max int) []*gv {
 			out = append(out, &gv{Elems: []*gv{a}})
 		}
 		if isLeaf(s.Key.K) && leafCount(s.Key.K) >= 2 {
-			for i, a := range es {
-				for j, b := range es {
-					if i <= 1 && j <= 2 {
-						out = append(out, &gv{Elems: []*gv{a, b}})
-					}
+			for _, a := range spread(es) {
+				for _, b := range spread(es) {
+					out = append(out, &gv{Elems: []*gv{a, b}})
 				}
 			}
 		}
@@ -571,4 +567,13 @@ func (s *shape) values(max int) []*gv {
 		out = out[:max*8]
 	}
 	return out
+}
+
+// spread picks first, middle and last of a value list (nested domains are bounded this way; the
+// picks differ in nil-ness / emptiness because value lists start with nil and end with full values).
+func spread(es []*gv) []*gv {
+	if len(es) <= 3 {
+		return es
+	}
+	return []*gv{es[0], es[len(es)/2], es[len(es)-1]}
 }
